@@ -39,9 +39,12 @@ CLAIMED = {
          "Per input type all texts up to length 3 (thorough 4) over an adversarial alphabet, hand-picked corner cases and seeded longer texts are pushed through the real InputStore by set(), by file and through prompt_input (+ the solver's assertion); TLC requires reject => reported invalid, must => value of the declared type equal to the denotation, may => consistent and finite; supplied never missing, not supplied always missing.", "6/C11"),
  "C12": ("exploration", "TLC evaluates FieldType.tla (StoreResult, rounding, blank convention, mirroring) on real TypedField.value() outcomes and on every value stored by explored returns",
          "Every (line type, decimal places) x every kind of Python value a definition may return goes through the real TypedField.value(); expected TypeError naming the line / empty value / rounded value per the specification; all values stored by explored real returns are checked for exact declared type and rounding; input-only forms' input-to-line type mirroring is checked exhaustively. Readers seeing the rounded stored value is enforced by SolverTrace.tla on every validated trace.", "6/C12"),
+ "C18": ("translation_validation", "TLC evaluates PdfMap.tla on all mappings against field trees parsed from the bundled templates (XFA packets / AcroForm dictionaries)",
+         "Exhaustive over all 1665 mappings (1245 IRS, 420 NC) of all forms and years: target exists; where the template's accessibility text (IRS) or field name (NC) carries a line number the mapped line is that line; check-box export values, length limits and choice lists agree with the template; no field driven twice; exclusive check-box groups have at most one box on for every value of the driving line (real pdf_field.value() called for each); every fileable form has a template and mappings; every mapped line exists.", "6/C18"),
 }
 
 NOTES = {
+ "C18": "PDF text extraction (stdlib inflate + XML/regex) is trusted base; fields whose label carries no line number are only checked for existence, kind, export value, limits; six reviewed label exceptions in data/pdfmap_exceptions.json",
  "C11": "the Lex.tla grammar is my statement of what each type documents; correct rounding of binary floats not decided (cent precision for plain decimals); '%' outside the alphabet",
  "C12": "explored returns are seeded samples; rounding judged on the repr of stored doubles",
  "C14": "text containing '%' is not generated (configparser interpolation makes the program abort, which is an error exit, not a wrong value); explored solutions are seeded samples",
